@@ -2,19 +2,41 @@
 //! oracle of the same property.
 
 use crate::{
-    check::{check_case, Case},
+    check::Case,
     exec::Violation,
     plan::{Faults, Plan},
     sched::Chooser,
     uni::{SynSpec, SYN_SLOTS},
 };
 
-fn fails(prop: &str, case: &Case, target: &Violation) -> Option<Violation> {
-    let out = check_case(prop, case);
-    if out.capped || out.harness_error.is_some() {
+/// Evaluate a case in a *fresh OS process* (so that nothing the code under test keeps in
+/// process-wide state can leak in from earlier runs of this worker): the violations it reports
+/// for `prop`, and the schedule it took.
+pub fn fresh_eval(prop: &str, case: &Case) -> Option<(Vec<Violation>, Vec<Vec<u8>>)> {
+    use std::io::Write;
+    let exe = std::env::current_exe().ok()?;
+    let mut child = std::process::Command::new(exe)
+        .args(["eval", prop])
+        .stdin(std::process::Stdio::piped())
+        .stdout(std::process::Stdio::piped())
+        .stderr(std::process::Stdio::null())
+        .spawn()
+        .ok()?;
+    child.stdin.take()?.write_all(serde_json::to_string(case).ok()?.as_bytes()).ok()?;
+    let out = child.wait_with_output().ok()?;
+    let v: serde_json::Value = serde_json::from_slice(&out.stdout).ok()?;
+    if v["capped"].as_bool().unwrap_or(true) || !v["harness_error"].is_null() {
         return None;
     }
-    out.own.into_iter().find(|v| v.oracle == target.oracle)
+    let own: Vec<Violation> = serde_json::from_value(v["own"].clone()).ok()?;
+    let traces: Vec<Vec<u8>> = serde_json::from_value(v["traces"].clone()).ok()?;
+    Some((own, traces))
+}
+
+fn fails(prop: &str, case: &Case, target: &Violation) -> Option<Violation> {
+    crate::check::PROGRESS.fetch_add(1, std::sync::atomic::Ordering::Relaxed);
+    let (own, _) = fresh_eval(prop, case)?;
+    own.into_iter().find(|v| v.oracle == target.oracle)
 }
 
 fn drop_op(case: &Case, phase: usize, thread: usize, op: usize) -> Option<Case> {
